@@ -146,11 +146,16 @@ func runC20(c *core.Ctx) {
 		if e2 == nil {
 			r.img = cb
 		}
-		// one drawn mutation on the original or on the clone
+		// one to three drawn mutations, on the original and/or on the clone (two appends, one on each side,
+		// are what it takes to see a shared backing array with spare capacity)
 		mut := t.Intn(7)
 		onClone := t.Bool()
 		if mut > 0 {
 			c20mutate(c, t, mut, onClone, orig, r)
+			for extra := t.Weighted(3, 2, 1); extra > 0 && len(c.Viol) == 0; extra-- {
+				onClone = !onClone
+				c20mutate(c, t, 1+t.Intn(6), onClone, orig, r)
+			}
 		}
 		fp = append(fp, spec.shape()<<8|uint64(mut)<<4|b2u(onClone)<<3|uint64(r.until))
 		if !checkClone(r, fmt.Sprintf("mutation%d", mut)) {
@@ -199,7 +204,12 @@ func runC20(c *core.Ctx) {
 								r.img = cb
 							}
 							if mut := t.Intn(7); mut > 0 {
-								c20mutate(c, t, mut, t.Bool(), pk, r)
+								side := t.Bool()
+								c20mutate(c, t, mut, side, pk, r)
+								for extra := t.Weighted(3, 2, 1); extra > 0 && len(c.Viol) == 0; extra-- {
+									side = !side
+									c20mutate(c, t, 1+t.Intn(6), side, pk, r)
+								}
 							}
 							if checkClone(r, "sender") {
 								jb = append(jb, r)
